@@ -447,6 +447,11 @@ def install_rawlibs(reg):
 
 
 def ecc_registry(cid):
+    # Path pruning budget: with byte sequences and 256..521-bit constants in the path condition a SATISFIABLE feasibility query costs
+    # z3 0.3-0.5 s, and a query that times out counts as feasible anyway.  Pruning is an optimisation only (an infeasible path that
+    # is kept has an inconsistent path condition, so its obligations still discharge); 80 ms keeps the same path sets 4x faster.
+    from vf.pyvc import interp as _interp
+    _interp.FEAS_TIMEOUT_MS = min(_interp.FEAS_TIMEOUT_MS, 80)
     reg = key_base_registry()
     add_number(reg)
     install_native(reg, cid)
